@@ -403,3 +403,124 @@ func init() {
 		return runDriver(cc, modulePath+"/httpgrpc", invokePeerDriver, res)
 	}
 }
+
+const inprocInvokeDriver = `package inprocgrpc
+
+import (
+	"context"
+	"io"
+	"runtime"
+	"testing"
+
+	"google.golang.org/grpc"
+	"google.golang.org/grpc/codes"
+	"google.golang.org/grpc/metadata"
+	"google.golang.org/grpc/status"
+	"google.golang.org/protobuf/types/known/emptypb"
+)
+
+type zzResp struct{ emptypb.Empty }
+
+func zzChannel(h func(ctx context.Context) (interface{}, error)) *Channel {
+	ch := &Channel{}
+	ch.RegisterService(&grpc.ServiceDesc{
+		ServiceName: "svc",
+		HandlerType: (*interface{})(nil),
+		Methods: []grpc.MethodDesc{{MethodName: "M", Handler: func(srv interface{}, ctx context.Context, dec func(interface{}) error, _ grpc.UnaryServerInterceptor) (interface{}, error) {
+			var in emptypb.Empty
+			if err := dec(&in); err != nil {
+				return nil, err
+			}
+			return h(ctx)
+		}}},
+	}, struct{}{})
+	return ch
+}
+
+func TestZZGovcReplay(t *testing.T) {
+	scenario := %q
+	switch scenario {
+	case "malformed":
+		ch := zzChannel(func(context.Context) (interface{}, error) { return &emptypb.Empty{}, nil })
+		for _, m := range []string{"", "foo", "/svc", "svc", "/"} {
+			func() {
+				defer func() {
+					if r := recover(); r != nil {
+						t.Errorf("GOVC-REPLAY: VIOLATED Invoke(%%q) panicked: %%v", m, r)
+					}
+				}()
+				err := ch.Invoke(context.Background(), m, &emptypb.Empty{}, &emptypb.Empty{})
+				if _, ok := status.FromError(err); !ok || err == nil {
+					t.Errorf("GOVC-REPLAY: VIOLATED Invoke(%%q) = %%v, want a status error", m, err)
+				}
+			}()
+		}
+	case "handler-context-error":
+		for _, ce := range []error{context.DeadlineExceeded, context.Canceled} {
+			ce := ce
+			ch := zzChannel(func(context.Context) (interface{}, error) { return nil, ce })
+			err := ch.Invoke(context.Background(), "/svc/M", &emptypb.Empty{}, &emptypb.Empty{})
+			want := codes.DeadlineExceeded
+			if ce == context.Canceled {
+				want = codes.Canceled
+			}
+			if status.Code(err) != want {
+				t.Errorf("GOVC-REPLAY: VIOLATED handler returned %%v; the caller got %%v (code %%v), want code %%v", ce, err, status.Code(err), want)
+			}
+		}
+	case "cancel-race":
+		// The call is cancelled after the response message has reached the caller but
+		// before the server goroutine has delivered its trailers (forced with a cloner
+		// that cancels while copying the response and lets the server goroutine
+		// finish). The caller must get either the complete result (response AND
+		// trailers) or the Canceled status - never success with the trailers missing,
+		// and never io.EOF.
+		defer runtime.GOMAXPROCS(runtime.GOMAXPROCS(1))
+		for i := 0; i < 400; i++ {
+			ctx, cancel := context.WithCancel(context.Background())
+			ch := zzChannel(func(hctx context.Context) (interface{}, error) {
+				grpc.SetTrailer(hctx, metadata.Pairs("k", "v"))
+				return &emptypb.Empty{}, nil
+			})
+			ch.WithCloner(CopyFunc(func(out, in interface{}) error {
+				if _, isResp := out.(*zzResp); isResp {
+					cancel()
+					for j := 0; j < 20; j++ {
+						runtime.Gosched()
+					}
+				}
+				return nil
+			}))
+			var tr metadata.MD
+			err := ch.Invoke(ctx, "/svc/M", &emptypb.Empty{}, &zzResp{}, grpc.Trailer(&tr))
+			cancel()
+			if err == io.EOF {
+				t.Fatalf("GOVC-REPLAY: VIOLATED run %%d: unary call returned a bare io.EOF", i)
+			}
+			if err == nil && len(tr["k"]) == 0 {
+				t.Fatalf("GOVC-REPLAY: VIOLATED run %%d: call cancelled while the server was finishing reported success but the handler's trailers are missing (%%v)", i, tr)
+			}
+		}
+	}
+}
+`
+
+func init() {
+	replayDrivers["inprocgrpc.(*Channel).Invoke"] = func(cc *checkCtx, rec *obRecord, f *Failure) map[string]interface{} {
+		res := map[string]interface{}{"attempted": false}
+		scenario := ""
+		switch {
+		case rec.o.Class == "bounds" || strings.Contains(rec.o.Name, "malformed_name"):
+			scenario = "malformed"
+		case strings.Contains(rec.o.Name, "never_a_bare_context_error") || strings.Contains(rec.o.Name, "error_frame_is_translated"):
+			scenario = "handler-context-error"
+		case strings.Contains(rec.o.Name, "never_a_bare_eof") || strings.Contains(rec.o.Name, "success_only_if_the_context_was_live"):
+			scenario = "cancel-race"
+		default:
+			res["reason"] = "no replay scenario for this obligation"
+			return res
+		}
+		res["inputs"] = map[string]interface{}{"scenario": scenario}
+		return runDriver(cc, modulePath+"/inprocgrpc", fmt.Sprintf(inprocInvokeDriver, scenario), res)
+	}
+}
